@@ -12,6 +12,7 @@
 #include "asn1_mutator.h"
 extern "C" {
 #include "matrixssl/matrixsslApi.h"
+#include "matrixssl/matrixssllib.h"
 }
 using namespace vf;
 using namespace c09;
@@ -47,7 +48,25 @@ static void prop(Tape &t, Ctx &c) {
         LeakScope leak("matrixSslLoadPkcs12Mem");
         sslKeys_t *keys = NULL;
         VF_CHECK(matrixSslNewKeys(&keys, NULL) >= 0 && keys, "harness-newkeys", "matrixSslNewKeys failed");
+        // how many certificates does the file hold?  (direct parse with the same passwords, on a private copy)
+        size_t direct = 0;
+        {
+            ExactBuf in2(in.p, in.n);
+            psX509Cert_t *cert = NULL; psPubKey_t key; memset(&key, 0, sizeof key);
+            int32 r0 = psPkcs12ParseMem(NULL, &cert, &key, in2.p, (int32) in2.n, 0, ip, il, mpass ? mp : ip, mpass ? ml : il);
+            if (r0 >= 0) for (psX509Cert_t *x = cert; x && direct < 100000; x = x->next) direct++;
+            else direct = (size_t) -1;
+            psX509FreeCert(cert); psClearPubKey(&key);
+        }
         rc = matrixSslLoadPkcs12Mem(keys, in.p, (int32) in.n, ip, il, mpass ? mp : NULL, ml, 0);
+        if (rc >= 0 && direct != (size_t) -1) {
+            // matrixSslCreateIdentity re-orders the chain (matrixSslReorderCertChain): a permutation, nothing may get lost
+            size_t onChain = 0;
+            for (psX509Cert_t *x = keys->identity ? keys->identity->cert : NULL; x; x = x->next)
+                VF_CHECK(++onChain <= direct, "reorder-cycle", "identity chain longer than the %zu certificates of the PKCS#12 file", direct);
+            VF_CHECK(onChain == direct, "reorder-lost-certificate", "PKCS#12 file holds %zu certificates, identity chain holds %zu", direct, onChain);
+            ncerts = (int) onChain;
+        }
         matrixSslDeleteKeys(keys);
         C09_LEAK_CHECK(leak, "rc=%d", rc);
     }
